@@ -49,3 +49,8 @@ CHECKS['C03'] = dict(
     text='Round trip (projection equality under lossless preferences + byte fixpoint, default-preference fixpoint) on 1.5k generated+edited sheets, all 50 repository sheets and 3k content cases per quick run (hundreds of thousands thorough), plus node-level set-back for rules, blocks, selectors, media lists and values. Exploration.',
     note='Trusted: the DOM projection (public accessors), cssutils tokenizer as normaliser; identifiers needing escapes, backslash content and multi-line comments inside blocks are listed findings excluded from the generators and probed by witnesses; empty @font-face/@page compare as absent.',
 )
+CHECKS['C04'] = dict(
+    technique='property-based testing (Hypothesis): grammar-based garbage injection into generated well-formed sheets with a containment predicate over DOM projections (differential against the undamaged sheet) + exhaustive prefix truncation of generated sheets against the model',
+    text='8k (sheet, injection point, balanced garbage) triples per quick run at declaration and statement level with the oracle "projections differ at most by a contiguous run at the injection index", and every prefix of 400 generated sheets/blocks (~80k parses) with the oracle "every construct complete before the cut is present unchanged". Exploration.',
+    note='Trusted: DOM projection, generator-side end offsets; garbage alphabets are hand-written (40 declaration-level, 30 statement-level fragments), balanced by construction; a stray top-level ";" is not a self-contained construct and not used.',
+)
